@@ -27,7 +27,12 @@ Inductive msg :=
 | MDied          (* "playback process have died" (:256) *)
 | MTimeout       (* "timeout while running recording playback and comparison" (:275) *)
 | MUnload        (* str of what self._compare_results.get raised while loading the answer (:246 -> :203) *)
-| MRefused.      (* the worker's message in a (False, message) answer (:328, :249-250 -> :203) *)
+| MRefused       (* the worker's message in a (False, message) answer (:328, :249-250 -> :203) *)
+| MFalsy         (* the comparator's own message, not text and falsy (an empty dict, 0): it passes the
+                    truthiness guard of :94 and is never concatenated *)
+| MStruct        (* the comparator's own message, not text and truthy (a structured diff, a number, an exception
+                    object): never seen in a yielded comparison, see [p_render] *)
+| MRender.       (* str of what Comparison.__str__ (:92-96) raised in the log line (:193-194 -> :203) *)
 
 (** an answer that reaches the parent and cannot be used *)
 Inductive bad :=
@@ -50,8 +55,36 @@ Record cmp := Cmp {
   has_expected : bool;         (* expected is not None *)
   has_actual : bool;
   exp_exc : tri;
-  act_exc : tri
+  act_exc : tri;
+  vdiff : option rid;          (* comparator_status.diff (:41): None, or the recording it was computed for *)
+  vsub : bool                  (* comparator_status is the comparator's own subclass instance of ComparatorResult,
+                                  with the attributes the comparator gave it (false: a plain ComparatorResult) *)
 }.
+
+(** ** Shapes of what a comparator returns (:359-361)
+
+    The comparator is the user's function: it may return a bare value (wrapped by :360-361) or a ComparatorResult -
+    or an instance of a subclass of it - whose three members (:39-41) hold anything. *)
+Inductive vstatus :=
+| VEnum (s : status)       (* a member of EqualityStatus *)
+| VForeign.                (* anything else (None, a bool, the name of a status as text): it has no [.name] *)
+Inductive vmsg :=
+| VNone | VText            (* None / text *)
+| VFalsy | VStruct.        (* not text: falsy (empty dict, 0) / truthy (structured diff, number, exception object) *)
+Record vshape := VShape {
+  vs_status : vstatus; vs_msg : vmsg;
+  vs_diff : bool;          (* the [diff] member (:41) is set *)
+  vs_sub : bool            (* an instance of a subclass of ComparatorResult carrying attributes of its own *)
+}.
+
+(** Comparison.__str__ (:92-96), evaluated by the log line :193-194 inside the per-recording try (:169):
+    [equality_status.name] needs an enum member, [u' - ' + message] needs text when the message is truthy *)
+Definition renderable (v : vshape) : bool :=
+  match vs_status v, vs_msg v with
+  | VForeign, _ => false
+  | VEnum _, VStruct => false
+  | VEnum _, _ => true
+  end.
 
 (** ** Behaviours of one replay *)
 
@@ -68,7 +101,9 @@ Inductive behaviour :=
                                timeout - leaving the task queue's read lock held *)
 | BDiesBefore               (* the worker dies before taking this task from the queue (once); the replay itself
                                is an Equal one *)
-| BBadAnswer (k : bad).     (* an Equal replay whose answer reaches the parent and cannot be used; the worker stays *)
+| BBadAnswer (k : bad)      (* an Equal replay whose answer reaches the parent and cannot be used; the worker stays *)
+| BReturns (v : vshape).    (* the comparator returns a verdict of this shape (a bare foreign value is the shape
+                               [VShape VForeign VNone false false]: :360-361 wraps it) *)
 
 (** result of [_play_and_compare_recording] (:334-372) when it returns *)
 Record pres := Pres {
@@ -77,47 +112,63 @@ Record pres := Pres {
   p_f1 : tri; p_f2 : tri;
   p_xraise : bool;         (* the result extractor raises on this playback's outputs (also when the parent
                               re-extracts, :177) *)
-  p_bad : option bad       (* as an item of the result queue: the parent cannot use it (always None in-process) *)
+  p_bad : option bad;      (* as an item of the result queue: the parent cannot use it (always None in-process) *)
+  p_diff : bool;           (* comparator_result.diff is set (failure results :62 never have one) *)
+  p_sub : bool;            (* comparator_result is an instance of the comparator's own subclass *)
+  p_render : bool          (* Comparison.__str__ succeeds on this verdict; when it does not, [p_status] / [p_msg]
+                              never reach a yielded comparison *)
 }.
 
 (** (:343-372); for the process-level behaviours this is the replay they stand for (an Equal one);
     [BExits] / [BHangs] never return and are intercepted before [play] is consulted. *)
 Definition play (b : behaviour) : pres :=
   match b with
-  | BDifferent => Pres Different MCmp true TFalse TFalse false None
-  | BPlayerRaises => Pres EqualizerFailure MPlayer false TNone TNone false None      (* :348 raises, playback None *)
-  | BExtractorRaises => Pres EqualizerFailure MExtractor true TNone TNone true None  (* :350 raises *)
-  | BComparatorRaises => Pres EqualizerFailure MComparator true TFalse TFalse false None  (* :359 raises *)
-  | BBare s => Pres s MNone true TFalse TFalse false None                            (* :360-361 *)
-  | _ => Pres Equal MCmp true TFalse TFalse false None
+  | BDifferent => Pres Different MCmp true TFalse TFalse false None false false true
+  | BPlayerRaises => Pres EqualizerFailure MPlayer false TNone TNone false None false false true      (* :348 raises, playback None *)
+  | BExtractorRaises => Pres EqualizerFailure MExtractor true TNone TNone true None false false true  (* :350 raises *)
+  | BComparatorRaises => Pres EqualizerFailure MComparator true TFalse TFalse false None false false true  (* :359 raises *)
+  | BBare s => Pres s MNone true TFalse TFalse false None false false true                            (* :360-361 *)
+  | BReturns v =>                                                 (* :359-366: handed on as it is, whatever it holds *)
+      Pres (match vs_status v with VEnum s => s | VForeign => EqualizerFailure end)
+           (match vs_msg v with VNone => MNone | VText => MCmp | VFalsy => MFalsy | VStruct => MStruct end)
+           true TFalse TFalse false None (vs_diff v) (vs_sub v) (renderable v)
+  | _ => Pres Equal MCmp true TFalse TFalse false None false false true
   end.
 
 (** what the worker's answer for a task of behaviour [b] is as an item of the result queue *)
 Definition answer_of (b : behaviour) : pres :=
   match b with
   | BBadAnswer k => let p := play b in Pres (p_status p) (p_msg p) (p_pb p) (p_f1 p) (p_f2 p) (p_xraise p) (Some k)
+                                            (p_diff p) (p_sub p) (p_render p)
   | _ => play b
   end.
 
 (** the failure Comparison of the outer handler (:203-212) *)
-Definition failure_cmp (l : rid) (m : msg) : cmp := Cmp l EqualizerFailure m None false false TFalse TFalse.
+Definition failure_cmp (l : rid) (m : msg) : cmp := Cmp l EqualizerFailure m None false false TFalse TFalse None false.
 
 (** an item of the result queue: the PlayAndCompareResult and the recording it was computed for.
     The real queue item does NOT carry the id (untagged queue); it is kept here because the attached
     playback object does. *)
 Definition result := (rid * pres)%type.
 
-(** (:171-191, :203-212): the Comparison the parent builds for recording [l] from a received result *)
+(** the log line (:193-194) renders the Comparison just built (:183-191), still inside the per-recording try (:169):
+    a verdict that Comparison.__str__ cannot render is a failure of that recording (:203-212).  The verdict object
+    itself is handed on as it is (:184): its diff and its class are the comparator's. *)
+Definition logged (p : pres) (l : rid) (v : cmp) : cmp := if p_render p then v else failure_cmp l MRender.
+
+(** (:171-194, :203-212): the Comparison the parent builds for recording [l] from a received result *)
 Definition to_cmp (keep : bool) (l : rid) (r : result) : cmp :=
   let p := snd r in
+  let d := if p_diff p then Some (fst r) else None in
   match p_bad p with
   | Some k => failure_cmp l (bad_msg k)          (* :246 / :250 raises inside the wait loop -> :203; the worker, its
                                                    age and the queues are as after any other answer *)
   | None =>
   if p_pb p && keep then
     if p_xraise p then failure_cmp l MExtractor                      (* :177 raises -> :203 *)
-    else Cmp l (p_status p) (p_msg p) (Some (fst r)) true true (p_f1 p) (p_f2 p)
-  else Cmp l (p_status p) (p_msg p) (if p_pb p then Some (fst r) else None) false false (p_f1 p) (p_f2 p)
+    else logged p l (Cmp l (p_status p) (p_msg p) (Some (fst r)) true true (p_f1 p) (p_f2 p) d (p_sub p))
+  else logged p l (Cmp l (p_status p) (p_msg p) (if p_pb p then Some (fst r) else None) false false (p_f1 p) (p_f2 p)
+                       d (p_sub p))
   end.
 
 (** ** In-process mode (:235-236) *)
